@@ -354,6 +354,7 @@ func TestC18(t *testing.T) {
 	r.Set("http_poll_wall_s", time.Since(t0).Seconds())
 	pprof.StopCPUProfile()
 
+	r.Set("exhaustive_subspace", "all sequences up to http_max_sequence_length over http_alphabet (longest length: 10-symbol sub-alphabet) in direct mode; poll mode is a seeded sample")
 	r.Require("http_direct_sequences", r.Counter("http_direct_sequences"), 5000)
 	r.Require("http_calls_created", r.Counter("calls_C"), 1000)
 	r.Require("http_calls_updated", r.Counter("calls_U"), 1000)
